@@ -2522,13 +2522,17 @@ def convert_ops_to_lut(op: Operation, arch, nng) -> Operation:
         name = "exp"
     elif op.type == Op.Log:
         def log(value):
-            if (value == 0):
+            # Log is only defined for positive values
+            if (value <= 0):
                 value = sys.float_info.min
             return math.log(value)
         func = log
         name = "log"
     elif op.type == Op.Sqrt:
-        func = math.sqrt
+        def sqrt(value):
+            # Sqrt is only defined for non-negative values
+            return math.sqrt(max(0.0, value))
+        func = sqrt
         name = "sqrt"
     elif op.type == Op.Gelu:
         def gelu(x):
